@@ -27,6 +27,7 @@ CONFIG = {
         "filepath.Walk = pre-order with byte-wise sorted children (sort_tree); os.MkdirAll/OpenFile/Symlink/Chmod/umask = mkdir_all/fs_set/create_mode/chmod_mode on a path->node map (kernel semantics modelled, root user, Linux: open honours 07777, mkdir 01777, chmod via os.FileMode(header.Mode) only 0777)",
         "hypotheses of the round-trip theorems: distinct names per directory, modes within 07777 (files) / 01777 (directories: mkdir(2) drops setuid/setgid), symlink targets relative, lexically inside the directory and passing neither through another symlink of the tree nor through a regular file (benign_tree: resolveRelToBase rejects the former by design and the latter with ENOTDIR, both depending on extraction order; the model mirrors the order dependence and is compared on such trees, the oracle judges only benign ones); absolute targets and out-and-back-in targets are outside the model (XAbsLink = unjudged); extraction escapes F10/F11 belong to C11",
         "the mode of a top-level plain file is not carried by a blob descriptor at all (no tar): for plain files the theorems and the oracle speak of bytes only",
+        "each added name is restored into its own directory: the round-trip theorem is per item and the generator keeps the names of one scenario relative, clean and not nested in each other (names with '..', absolute names and overlapping names are C11's subject)",
         "which of several same-content layers oras.Copy pushes is scheduling: the theorem quantifies over every pushed subset/order; in the correspondence the recorded sequence of successful named pushes is the model's input",
         "devices, fifos, xattrs, times of restored files, setuid/setgid directories and sizes above ~2.5 MiB are not exercised; the remote intermediate store is registry/remote.Repository against an in-memory registry of the harness over loopback HTTP (monolithic uploads only); hard links are exercised (Add treats them as regular files)",
     ],
